@@ -244,3 +244,25 @@ Proof.
   - intros [_ H]. destruct (H 0%nat _ _ eq_refl) as (_ & _ & (_ & _ & p' & o' & X & _) & _). cbn in X. discriminate.
   - intros [_ H]. destruct (H 0%nat _ _ eq_refl) as (_ & _ & (_ & _ & p' & o' & X & _ & Y & _) & _). cbn in X. inversion X; subst. cbn in Y. lia.
 Qed.
+
+(* ====================================================================================================
+   The wait for the next datagram itself (net/platform/unix.rs SocketImpl::is_readable, model Net/Platform.v; tied to the real
+   socket implementation by harness mode `platform`: loopback sockets, a stream of signals).
+   A wait that a signal interrupts is a wait that found nothing - never an error: whatever signals the process receives, no
+   call of is_readable made by the loop returns an error unless select(2) failed for another reason, so signals cannot end a run. *)
+From TV Require Net.Platform.
+Theorem c09_interrupted_wait_is_a_timeout : forall rs,
+  Forall (fun r => match r with Platform.SelCount _ => True | Platform.SelErrno e => e = Platform.EINTR end) rs ->
+  Forall (fun x => exists b, x = Ok b) (Platform.waits rs) /\
+  forall k r, nth_error rs k = Some (Platform.SelErrno r) -> nth_error (Platform.waits rs) k = Some (Ok false).
+Proof.
+  intros rs H. split.
+  - unfold Platform.waits. induction H as [|r rs Hr _ IH]; cbn [map]; constructor; [|exact IH].
+    destruct r as [n|e]; cbn [Platform.is_readable_of]; [eexists; reflexivity|]. subst e. rewrite Z.eqb_refl. eexists; reflexivity.
+  - intros k r Hk. unfold Platform.waits. rewrite nth_error_map, Hk. cbn [option_map Platform.is_readable_of].
+    rewrite Forall_forall in H. specialize (H _ (nth_error_In _ _ Hk)). cbn in H. subst r. rewrite Z.eqb_refl. reflexivity.
+Qed.
+
+(* ... and any other errno is the fatal error the run ends with (C09: a fatal socket error ends the run with that error) *)
+Theorem c09_select_error_is_fatal : forall e, e <> Platform.EINTR -> Platform.is_readable_of (Platform.SelErrno e) = Err (EIo e).
+Proof. intros e H. cbn [Platform.is_readable_of]. destruct (Z.eqb_spec e Platform.EINTR); [contradiction|reflexivity]. Qed.
